@@ -496,15 +496,16 @@ class Py2Cpp(ITranspiler):
 		# 期待値1: 'range(size)'
 		# 期待値2: 'range(begin, size)'
 		# 期待値3: 'range(begin, size, step)'
-		args_num = len(node.iterates.as_a(defs.FuncCall).arguments)
-		join_args = PatternParser.pluck_func_call_arguments(for_in)
+		# 実引数は構文木から個別にトランスパイルする ※描画済みの文字列をブロック解析で分割すると、`a << 1`や`a < b`の`<`を括弧の開始と見做して分割に失敗する
+		args = [self.transpile(argument) for argument in node.iterates.as_a(defs.FuncCall).arguments]
+		args_num = len(args)
 		if args_num == 1:
-			return self.render(node, f'flow/{node.classification}/range', vars={'symbol': symbols[0], 'begin': 0, 'size': join_args, 'step': 1, 'statements': statements})
+			return self.render(node, f'flow/{node.classification}/range', vars={'symbol': symbols[0], 'begin': 0, 'size': args[0], 'step': 1, 'statements': statements})
 		elif args_num == 2:
-			begin, size = BlockParser.break_separator(join_args, ',')
+			begin, size = args
 			return self.render(node, f'flow/{node.classification}/range', vars={'symbol': symbols[0], 'begin': begin, 'size': size, 'step': 1, 'statements': statements})
 		else:
-			begin, size, step = BlockParser.break_separator(join_args, ',')
+			begin, size, step = args
 			return self.render(node, f'flow/{node.classification}/range', vars={'symbol': symbols[0], 'begin': begin, 'size': size, 'step': step, 'statements': statements})
 
 	def proc_for_enumerate(self, node: defs.For, symbols: list[str], for_in: str, statements: list[str]) -> str:
